@@ -7,6 +7,7 @@ import (
 	"strings"
 	"sync"
 	"sync/atomic"
+	"time"
 
 	"github.com/vedadiyan/genql"
 )
@@ -270,7 +271,27 @@ func (g *gateCtl) counts() (arrived, finished int) {
 	return g.arrived, g.finished
 }
 
+// sinkCells is written by vf_sink WITHOUT any synchronisation: cell i is written by exactly one
+// invocation, and read by the caller of Exec after Exec has returned. A query that returns while one of
+// its ASYNC / SPINASYNC calls is still running therefore shows up twice: as a cell that is still 0, and
+// (in the -race build) as a data race between the function and the caller.
+var sinkCells [1 << 14]int64
+
+func vfSink(q *genql.Query, cur genql.Map, fo *genql.FunctionOptions, args []any) (any, error) {
+	if len(args) != 1 {
+		return nil, fmt.Errorf("vf_sink expects one argument")
+	}
+	f, ok := args[0].(float64)
+	if !ok || f < 0 || int(f) >= len(sinkCells) {
+		return nil, fmt.Errorf("vf_sink: bad cell %v", args[0])
+	}
+	time.Sleep(150 * time.Microsecond)
+	sinkCells[int(f)] = 1
+	return f, nil
+}
+
 func init() {
+	genql.RegisterFunction("vf_sink", vfSink)
 	genql.RegisterFunction("vf_id", vfID)
 	genql.RegisterFunction("vf_mul", vfMul)
 	genql.RegisterFunction("vf_fail", vfFail)
